@@ -97,9 +97,53 @@ def actions_reduced(h):
     return per, order
 
 
+def left_out(h):
+    """a reducer / middleware registered (at build time or by an add_* call that returned) before an
+    action's dispatch was invoked takes part in that action's pipeline (C01 whole chain, C07)"""
+    bad = []
+    per, order = actions_reduced(h)
+    inv = {}
+    for e in h.ev:
+        if e["kind"] == "INV" and e["f"][0].startswith("d."):
+            inv.setdefault(int(e["f"][0].split(".")[2]), e["i"])
+    reg = {j: -1 for j in h.sc["reducers"]}
+    mreg = {i: -1 for i in h.sc["mws"]}
+    for e in h.ev:
+        if e["kind"] == "RET" and e["f"][0].startswith("ar:"):
+            reg.setdefault(int(e["f"][0][3:]), e["i"])
+        if e["kind"] == "RET" and e["f"][0].startswith("am:"):
+            mreg.setdefault(int(e["f"][0][3:]), e["i"])
+    for a, evs in per.items():
+        if a not in inv:
+            continue
+        ran = set()
+        for e in evs:
+            last = e["f"][3].split(",")[-1]
+            if last.endswith(".%d" % a):
+                ran.add(int(last.split(".")[0]))
+        for j, ri in reg.items():
+            if ri < inv[a] and j not in ran:
+                bad.append(("left-out", "reducer %d was registered before action %d was dispatched "
+                                        "but did not run for it" % (j, a)))
+    # middlewares: only when no verdict can cut a phase short (every before_reduce answer is Continue)
+    brs = h.kinds("BR")
+    if all(e["f"][3] == "C" for e in brs):
+        seen = {}
+        for e in brs:
+            seen.setdefault(int(e["f"][1]), set()).add(int(e["f"][0]))
+        for a, ms in seen.items():
+            if a not in inv:
+                continue
+            for i, ri in mreg.items():
+                if ri < inv[a] and i not in ms:
+                    bad.append(("left-out", "middleware %d was registered before action %d was dispatched "
+                                            "but its before_reduce did not run for it" % (i, a)))
+    return bad
+
+
 # ---- C01 -----------------------------------------------------------------------------------------
 def mon_c01(h):
-    bad = []
+    bad = [b for b in left_out(h) if "reducer" in b[1]]
     per, order = actions_reduced(h)
     cur = "-"
     seen_done = set()
@@ -623,7 +667,9 @@ def mon_c07(h):
         if a in last and s in directs and last[a] in directs and directs.index(s) < directs.index(last[a]):
             bad.append(("registration-order", "action %d: subscriber %d notified after %d" % (a, s, last[a])))
         last[a] = s
-    # direct subscribers / reducers / middlewares registered before the dispatch are not left out
+    # reducers / middlewares registered before the dispatch are not left out (direct subscribers:
+    # mon_c09)
+    bad.extend(left_out(h))
     return bad
 
 
